@@ -6,6 +6,8 @@ use crate::probes::{Target, TargetClient};
 use crate::world::*;
 use axelar_operators::{AxelarOperators, AxelarOperatorsClient};
 use proptest::prelude::*;
+#[allow(unused_imports)]
+use crate::prop_oneof;
 use serde::{Deserialize, Serialize};
 use soroban_sdk::testutils::{Address as _, MockAuth, MockAuthInvoke};
 use soroban_sdk::xdr::ScVal;
